@@ -486,7 +486,7 @@ static const char* kDriverName = "drv_stream";
 int main(int argc, char** argv) {
   driver_init();
   vh::Driver drv{kDriverName, run_campaigns, run_case};
-  drv.replay_repeat = 4096;   // C08/C09/C10: "keeps no state between calls" — a history-dependent failure reproduces by repetition
+  drv.replay_repeat = 8192;   // C08/C09/C10: "keeps no state between calls" — a history-dependent failure reproduces by repetition
   return vh::driver_main(argc, argv, drv);
 }
 #endif
